@@ -40,6 +40,8 @@ class Db:
         self.csv_opts = dict(csv_opts or {})
         self.db = None
         self.cache = {}
+        th.dynamic = {}
+        th.window = None
         self.open()
 
     def open(self):
@@ -144,7 +146,7 @@ class Db:
                 return obs
             from tinyflux.index import Index
             fresh = Index()
-            fresh.build(th.point(tf, ap) for ap in store_abs)
+            fresh.build(th.point_utc(tf, ap) for ap in store_abs)
             obs["n"] = len(idx)
         except Exception:
             return obs
@@ -178,12 +180,15 @@ class Db:
 
     def execute(self, a):
         """Run one operation record; returns (exception class name or "", abstract result)."""
+        t0 = datetime.now(timezone.utc)
         try:
             return "", coerce(a["op"], self._run(a))
         except BaseException as e:  # noqa - the class name is logged, TLC decides
             if isinstance(e, (KeyboardInterrupt, SystemExit, MemoryError)):
                 raise
             return type(e).__name__, 0
+        finally:
+            self.th.window = (t0, datetime.now(timezone.utc))     # stamps of this call may be named from now on
 
     def _run(self, a):
         tf, th, db = self.tf, self.th, self.db
